@@ -219,6 +219,14 @@ class World:
             raise Mismatch("history", f"expr:{d['op']}",
                            f"operation {self.describe(d)} on the used, shared objects returned {str(a.value)[:200]} but a "
                            f"never-used copy returns {str(b.value)[:200]}")
+        if budget_hit and a.kind == lib.NUM and b.kind == lib.NUM and a.key() != b.key():
+            # KF2 through a number: an early route evaluated a budget-exhausted simplified partial whose SHAPE (known
+            # finding) differs between the used and the fresh objects; the two equivalent expressions round differently
+            from . import known
+            scale = max(abs(a.value), abs(b.value))
+            if known.listed("C09", "KF2") and abs(a.value - b.value) <= 1e-9 * scale + 1e-300:
+                self.known_kf2 += 1
+                return
         ka, kb = a.key(), b.key()
         if a.kind == lib.EXC and b.kind == lib.EXC:
             ka, kb = (a.kind, a.detail[0]), (b.kind, b.detail[0])
